@@ -397,8 +397,17 @@ def call_method(fr, recv: Any, name: str, args: list, kwargs: dict, node: ast.AS
                 return s.split(_c(args[0]) if args else None)
             except Undecided as u:
                 raise AnalysisError(f"split undecided: {u.descr}")
-        if name in ("isdigit", "isalpha", "isalnum") and s.is_concrete():
+        if name in ("isdigit", "isalpha", "isalnum", "isupper", "islower", "isspace", "isnumeric", "isidentifier") and s.is_concrete():
             return getattr(s.concrete(), name)()
+        if name in ("removeprefix", "removesuffix"):
+            arg = _c(args[0])
+            if s.is_concrete():
+                return getattr(s.concrete(), name)(arg)
+            if name == "removeprefix":
+                return pai._simplify(s.slice(len(arg), None)) if I.decide(lambda: s.startswith(arg), f"{s.describe()}.startswith({arg!r})") else recv
+            return pai._simplify(s.slice(None, -len(arg))) if I.decide(lambda: s.endswith(arg), f"{s.describe()}.endswith({arg!r})") else recv
+        if name in ("partition", "rpartition", "find", "rfind", "index", "title", "zfill", "center", "ljust", "rjust", "expandtabs", "splitlines") and s.is_concrete():
+            return getattr(s.concrete(), name)(*[_c(a) if isinstance(a, (str, SStr)) else a for a in args])
         if name == "encode":
             return SOpaque("bytes")
         if name == "count" and s.is_concrete():
